@@ -220,7 +220,7 @@ class Gen:
         else:
             total = self.lay[t].off + self.lay[t].rotations * BLOCK
             x = r.choice([0, 1, 255, 256, 257, 300, r.randint(0, max(total, 1)), r.randint(0, max(total, 1)),
-                          total, total + 1, BLOCK - 1, BLOCK, BLOCK + 1, 1 << 40])
+                          total, total + 1, BLOCK - 1, BLOCK, BLOCK + 1, 1 << 40] + [0] * p.get('offset0_extra', 0))
             self.emit('br', t=t, max=self.pick_budget(t), cp=r.random() < 0.5, start=x)
             self.features.add('offset-read')
 
@@ -235,6 +235,18 @@ class Gen:
             if r.random() < p.get('prelude_alloc_only', 0):
                 self.op_reject(t)
                 self.features.add('prelude-alloc-only')
+        # optional prelude: a topic's first block is sealed holding nothing but a few tiny (< 128 byte) entries, because the next entry
+        # does not fit behind them (read paths treat entries below the double-peek threshold specially)
+        for t in self.topics:
+            if r.random() < p.get('prelude_small_block', 0):
+                for _ in range(r.randint(1, 4)):
+                    ln = max(r.choice([0, 1, 8, 16, 64, 100, 127]), self.min_len)
+                    self.emit('append', t=t, tag=self.newtag(), len=ln)
+                    self.lay[t].append(ln); self.pending[t].append(ln); self.bytes += ln
+                ln = r.randint(self.lay[t].remaining - HDR + 1, BLOCK - HDR)
+                self.emit('append', t=t, tag=self.newtag(), len=ln)
+                self.lay[t].append(ln); self.pending[t].append(ln); self.bytes += ln
+                self.features.add('prelude-small-block')
         for _ in range(nops):
             t = r.choice(self.topics)
             k = r.choices(['append', 'batch', 'read', 'count', 'reopen', 'restart', 'marker', 'reject', 'fault'],
